@@ -99,11 +99,24 @@ def run(tier):
 
 
 def selftest(recs, h0, wd):
-    end = next((i for i, e in enumerate(recs) if i > h0 and e["ev"] == "Reset"), len(recs))
-    cut = recs[h0:end]
-    gi = next((i for i, e in enumerate(cut) if e["ev"] == "Retrieve" and e["res"]), None)
-    si = next((i for i, e in enumerate(cut) if e["ev"] == "Store" and e["ok"] and gi is not None and i < gi
-               and e["id"] == cut[gi]["id"] and e["seed"] == cut[gi]["res"]), None)
+    # the first history whose first successful retrieve comes before any corruption / crash probe / restore (after those an
+    # error can be an admissible answer, so refusing the entitled caller would not be a contradiction)
+    starts = [i for i, e in enumerate(recs) if i >= h0 and e["ev"] == "Reset" and e.get("kind") == "history"]
+    cut, gi = None, None
+    for st in starts[:200]:
+        end = next((i for i, e in enumerate(recs) if i > st and e["ev"] == "Reset"), len(recs))
+        cand = recs[st:end]
+        g = next((i for i, e in enumerate(cand) if e["ev"] == "Retrieve" and e["res"]), None)
+        if g is not None and not any(e["ev"] in ("Corrupt", "CrashProbe", "Restore", "Panic") for e in cand[:g]) \
+                and any(e["ev"] == "CrashProbe" and any(p["res"] for p in e["probe"]) for e in cand):
+            cut, gi = cand, g
+            break
+    if cut is None:
+        raise vlib.ToolError("self-test: no history with a successful retrieve before any damage and a crash probe")
+    stores = [i for i, e in enumerate(cut) if e["ev"] == "Store" and e["ok"] and i < gi and e["id"] == cut[gi]["id"]]
+    # dropping the store is a contradiction only if it is the single source of the retrieved seed
+    si = stores[0] if len(stores) == 1 and cut[stores[0]]["seed"] == cut[gi]["res"] \
+        and not any(e["ev"] in ("Restore", "Reopen", "Init") for e in cut[:gi]) else None
     ci = next((i for i, e in enumerate(cut) if e["ev"] == "CrashProbe" and any(p["res"] for p in e["probe"])), None)
     if gi is None or ci is None:
         raise vlib.ToolError("self-test: first history has no successful retrieve / crash probe")
